@@ -1,5 +1,5 @@
 (* Entry point of the extracted model: one request (an s-expression) in, one out. *)
-Require Import BB.Base.Str BB.Base.Sx BB.Base.Xml BB.Model.PreParse BB.Model.Eid BB.Model.PegSyntax BB.Model.Peg BB.Gen.Grammar BB.Base.Dict BB.Model.Types BB.Model.XmlGen BB.Model.Post BB.Model.Convert.
+Require Import BB.Base.Str BB.Base.Sx BB.Base.Xml BB.Model.PreParse BB.Model.Eid BB.Model.PegSyntax BB.Model.Peg BB.Gen.Grammar BB.Base.Dict BB.Model.Types BB.Model.XmlGen BB.Model.Post BB.Model.Convert BB.Model.Unparse.
 Open Scope N_scope.
 
 Definition opt_str_sx (o : option str) : sx :=
@@ -63,6 +63,21 @@ Definition dispatch (req : sx) : sx :=
                 else if str_eqb step (of_string "all") then r_xml_sx (post_process prefix e)
                 else sx_err "BadRequest"
             end
+        | _ => sx_err "BadRequest"
+        end
+      else if str_eqb stage (of_string "xslstr") then
+        match args with
+        | [A fn; A s] =>
+            if str_eqb fn (of_string "escape-inlines") then A (escape_inlines s)
+            else if str_eqb fn (of_string "escape-prefixes") then A (escape_prefixes s)
+            else if str_eqb fn (of_string "escape-num") then A (escape_num s)
+            else if str_eqb fn (of_string "string-ltrim") then A (string_ltrim s)
+            else if str_eqb fn (of_string "start-end-00") then A (escape_start_end (fun _ => false) (fun _ => false) s)
+            else if str_eqb fn (of_string "start-end-b") then A (escape_start_end (fun c => c =? 42) (fun c => c =? 42) s)
+            else if str_eqb fn (of_string "start-end-i") then A (escape_start_end (fun c => c =? 47) (fun c => c =? 47) s)
+            else if str_eqb fn (of_string "start-end-u") then A (escape_start_end (fun c => c =? 95) (fun c => c =? 95) s)
+            else if str_eqb fn (of_string "start-end-sup") then A (escape_start_end (fun _ => false) (fun c => c =? 125) s)
+            else sx_err "BadRequest"
         | _ => sx_err "BadRequest"
         end
       else if str_eqb stage (of_string "clean_num") then
